@@ -609,6 +609,14 @@ int main() {
             else if (t[1] == "B") out = LedRunner<HArray<Key, Value<char>>, ValNested, true>::runOps(t[2]);
             else if (t[1] == "L") out = LedRunner<HList<Key>, ValStr, false>::runOps(t[2]);
             else out = "bad-op";
+        } else if (t.size() == 2 && t[0] == "htwrap") {
+            // recorded finding alloc-size-wrap: a request of 2^30 slots makes the allocation size wrap in
+            // 32-bit SizeT (0 bytes allocated, capacity 2^30); the next Insert walks off the block.
+            HList<Key> h;
+            h.Reserve(SizeT(1u << 30));
+            const char k[] = "a";
+            h.Insert(Key{k, 1});
+            out = "survived";
         } else if (t.size() == 2 && t[0] == "hthash") {
             std::vector<uint64_t> u;
             if (!vh::parse_nats(t[1], u)) {
